@@ -20,12 +20,14 @@
    in Props/C07.v) covers first-class function values: function literals inside functions and blocks (factories), `modify`
    writes through captured cells, functions returned / stored / passed as arguments and called through variables -- with
    the statements assignment, modify, op-assignment (on a local or THROUGH a captured cell), print, assert, expression
-   statement, if, if / else, else-if chains, while, from (named fresh counter, step 1), break, continue (through any nesting
-   of ifs), return with and without a value; expressions with calls anywhere (operands of arithmetic, comparisons, && || !,
-   `(a) or b`, `get a`, arguments) and `self(..)` (pinned for the programs of C15 / C12 in Props/C15.v, Props/C12.v).
+   statement, if, if / else, else-if chains, while, from loops of every form (named fresh / colliding / anonymous counter,
+   `to` / `through`, with a step, calls in the lower bound, calls in the upper bound of an anonymous loop), break, continue
+   (through any nesting of ifs), return with and without a value; expressions with calls anywhere (operands of arithmetic,
+   comparisons, && || !, `(a) or b`, `get a`, arguments) and `self(..)` (pinned for the programs of C15 / C12 in
+   Props/C15.v, Props/C12.v).
    `in_fragment` = in_fragment1 || in_fragment2; fragment_correct holds on both.
-   NOT yet proved: calls in the upper bound of a from loop with a NAMED counter or in a step; anonymous, colliding or stepped
-   loop counters and calls in loop bounds TOGETHER WITH the closure features of fragment 2.
+   NOT yet proved: calls in the upper bound of a from loop with a NAMED counter; a step expression that contains calls or
+   reads captured variables (fragment 2 requires a call-free step over locals).
    Those are covered by the T1/T2/T3 correspondences on every run.
 
    What else is proved and pinned here:
@@ -157,6 +159,8 @@ Example C01_nv_break_modify_in_fragment :
 Proof. vm_compute. reflexivity. Qed.
 (* the features of the two fragments mixed in one function: closure + modify + break / continue / else-if / assert / op-assignment *)
 Check C01_nv_mixed_program.
+(* from loops of every form next to closures *)
+Check C01_nv_loops_program.
 (* a write through a captured variable alone is inside (fragment 2) *)
 Example C01_nv_modify_in_fragment :
   in_fragment nvp [SAssign [120%N] (EInt 1); SAssign [102%N] (EFn [] [SModify [120%N] (EInt 2); SReturn (Some (EVar [120%N]))]); SPrint (ECall (EVar [102%N]) [])] = true.
